@@ -285,6 +285,38 @@ func verifIdenticalPair(shape int, pkg *types.Package, base *types.Named) (a, b 
 		inner := verifNamed(pkg, "Inner", verifIface(pkg, []string{"M"}, nil))
 		return verifIface(pkg, []string{"M", "Z"}, nil), verifIface(pkg, []string{"Z"}, []types.Type{inner})
 	}
+	switch shape {
+	case 11: // generic signature whose second constraint mentions the first type parameter: func[T any, S ~[]T](S)
+		mk := func(n1, n2 string) types.Type {
+			t := types.NewTypeParam(types.NewTypeName(token.NoPos, pkg, n1, nil), types.NewInterfaceType(nil, nil))
+			u := types.NewUnion([]*types.Term{types.NewTerm(true, types.NewSlice(t))})
+			ci := types.NewInterfaceType(nil, []types.Type{u})
+			ci.Complete()
+			s := types.NewTypeParam(types.NewTypeName(token.NoPos, pkg, n2, nil), ci)
+			return types.NewSignatureType(nil, nil, []*types.TypeParam{t, s}, types.NewTuple(types.NewVar(token.NoPos, pkg, "x", s)), nil, false)
+		}
+		return mk("T", "S"), mk("U", "R")
+	case 12: // a constraint with a method over another type parameter: func[K comparable, M interface{ Get(K) bool }](M)
+		mk := func(n1, n2 string) types.Type {
+			k := types.NewTypeParam(types.NewTypeName(token.NoPos, pkg, n1, nil), types.Universe.Lookup("comparable").Type())
+			get := types.NewFunc(token.NoPos, pkg, "Get", types.NewSignatureType(nil, nil, nil, types.NewTuple(types.NewVar(token.NoPos, pkg, "", k)), types.NewTuple(types.NewVar(token.NoPos, pkg, "", types.Typ[types.Bool])), false))
+			ci := types.NewInterfaceType([]*types.Func{get}, nil)
+			ci.Complete()
+			m := types.NewTypeParam(types.NewTypeName(token.NoPos, pkg, n2, nil), ci)
+			return types.NewSignatureType(nil, nil, []*types.TypeParam{k, m}, types.NewTuple(types.NewVar(token.NoPos, pkg, "x", m)), nil, false)
+		}
+		return mk("K", "M"), mk("Q", "W")
+	case 13: // a self-referential constraint: func[T interface{ Less(T) bool }](T)
+		mk := func(n string) types.Type {
+			t := types.NewTypeParam(types.NewTypeName(token.NoPos, pkg, n, nil), nil)
+			less := types.NewFunc(token.NoPos, pkg, "Less", types.NewSignatureType(nil, nil, nil, types.NewTuple(types.NewVar(token.NoPos, pkg, "", t)), types.NewTuple(types.NewVar(token.NoPos, pkg, "", types.Typ[types.Bool])), false))
+			ci := types.NewInterfaceType([]*types.Func{less}, nil)
+			ci.Complete()
+			t.SetConstraint(ci)
+			return types.NewSignatureType(nil, nil, []*types.TypeParam{t}, types.NewTuple(types.NewVar(token.NoPos, pkg, "x", t)), nil, false)
+		}
+		return mk("T"), mk("E")
+	}
 	return types.NewTuple(types.NewVar(token.NoPos, pkg, "a", base)), types.NewTuple(types.NewVar(token.NoPos, nil, "zz", base))
 }
 
@@ -292,7 +324,7 @@ func VerifH_C19_hash() {
 	vp.SymbolicAddrs(true) // the addresses of type-name objects are arbitrary
 	pkg := verifPkgT()
 	base := verifNamed(pkg, "N", types.Typ[types.Int])
-	shape := vp.Choose("shape", 11)
+	shape := vp.Choose("shape", 14)
 	a, b := verifIdenticalPair(shape, pkg, base)
 	vp.Assume(types.Identical(a, b)) // the pair is identical by construction; go/types is the arbiter
 	ha, hb := MakeHasher().Hash(a), MakeHasher().Hash(b)
